@@ -12,7 +12,7 @@
       records (`;`-separated, fields `|`-separated, `_` for a space inside rules):
         F|addr|size|psize|name    P|addr|psize|name    C|addr|size|rules    A|addr|rules (belongs to the last C)
   answer:
-    frames:<trust>|ip=..|in=..|sp=..|m=<idx|->|f=<name@base/psize|->|v=<all|r=v,..>;...      or  PANIC
+    frames:<trust>|ip=..|in=..|sp=..|m=<idx|->|f=<name@base/psize|->|v=<all|r=v,..>;...
 -/
 import MdModel.Prelude
 import MdModel.Walk.Common
@@ -110,10 +110,8 @@ def showFrame (a : Arch) (f : Frame) : String :=
     | none => "-"
   s!"{f.trust.str}|ip={f.ctx.ip}|in={f.instruction}|sp={f.ctx.sp}|m={m}|f={fn}|v={showValid (effArch a f.ctx) f.ctx}"
 
-def showWalk (a : Arch) (r : Outcome (List Frame)) : String :=
-  match r with
-  | .panic _ => "PANIC"
-  | .ok fs => "frames:" ++ joinWith ";" (fs.map (showFrame a))
+def showWalk (a : Arch) (fs : List Frame) : String :=
+  "frames:" ++ joinWith ";" (fs.map (showFrame a))
 
 def handleWalk (args : List String) : String :=
   match args with
